@@ -117,7 +117,10 @@ def _perform_decrypt(obj: EncryptionData, registry: JWERegistry) -> None:
     if len(cek) * 8 != enc.cek_size:  # pragma: no cover
         raise InvalidCEKLengthError(f"A key of size {enc.cek_size} bits MUST be used")
 
-    aad = json_b64encode(obj.protected)
+    # the AAD is the received encoded protected header, not a re-serialization
+    aad = obj.base64_segments.get("protected")
+    if aad is None:
+        aad = json_b64encode(obj.protected)
     if isinstance(obj, BaseJSONEncryption) and obj.aad:
         aad = aad + b"." + urlsafe_b64encode(obj.aad)
 
